@@ -1,32 +1,67 @@
 #!/usr/bin/env python3
-"""tools/run_seeded.py [ID-prefix ...]: apply each /verif/seeded/<name>/patch.diff to /repo, run the property's quick check, undo.
-Writes /verif/seeded/RESULTS.json (which check catches which seeded change)."""
-import json, os, subprocess, sys, glob
+"""tools/run_seeded.py [--lanes N] [ID-prefix ...]: run every seeded change against the quick check of its property and write
+/verif/seeded/RESULTS.json (which check catches which change).  Each lane owns a scratch git worktree of /repo's HEAD and runs the
+checks with VERIF_REPO pointing at it, so /repo itself is never modified; all changes of one property go to one lane (evidence and
+replay files of a property are not written by two lanes at once).  Worktrees are removed at the end."""
+import json, os, subprocess, sys, glob, threading
 os.chdir("/verif")
-sel = sys.argv[1:]
+args = sys.argv[1:]
+lanes = 4
+if args[:1] == ["--lanes"]:
+    lanes = int(args[1]); args = args[2:]
+EXTRA = {"C06_2": ["C07"], "C11_2": ["C12"], "C12_3": ["C04"]}      # neighbouring checks that also see the change
 resf = "/verif/seeded/RESULTS.json"
 results = json.load(open(resf)) if os.path.exists(resf) else {}
+lock = threading.Lock()
+by_prop = {}
 for d in sorted(glob.glob("/verif/seeded/C*_*")):
     name = os.path.basename(d)
-    pid = name.split("_")[0]
-    if sel and not any(name.startswith(s) for s in sel):
+    if args and not any(name.startswith(s) for s in args):
         continue
-    st = subprocess.run("git -C /repo status --porcelain --untracked-files=no", shell=True, stdout=subprocess.PIPE).stdout
-    if st.strip():
-        print("refusing: /repo has uncommitted changes"); sys.exit(2)
-    if subprocess.run("git -C /repo apply --check %s/patch.diff" % d, shell=True).returncode:
-        results[name] = {"caught": None, "note": "patch does not apply to current /repo HEAD"}
-        print(name, "DOES-NOT-APPLY"); continue
-    subprocess.run("git -C /repo apply %s/patch.diff" % d, shell=True)
+    by_prop.setdefault(name.split("_")[0], []).append(d)
+props = sorted(by_prop)
+def sh(cmd, **kw):
+    return subprocess.run(cmd, shell=True, stdout=subprocess.PIPE, stderr=subprocess.STDOUT, **kw)
+def lane(k):
+    wt = "/tmp/seedlane_%d" % k
+    sh("git -C /repo worktree remove --force %s" % wt)
+    if sh("git -C /repo worktree add --detach %s HEAD" % wt).returncode:
+        print("lane %d: cannot create worktree" % k); return
+    env = dict(os.environ, VERIF_REPO=wt)
     try:
-        p = subprocess.run("./check %s --tier quick" % pid, shell=True, stdout=subprocess.PIPE, stderr=subprocess.STDOUT, timeout=3000)
-        out = p.stdout.decode("utf-8", "replace")
-        rc = p.returncode
-    except subprocess.TimeoutExpired:
-        out, rc = "TIMEOUT", -1
+        for pid in props[k::lanes]:
+            for d in by_prop[pid]:
+                name = os.path.basename(d)
+                sh("git -C %s checkout -- ." % wt)
+                if sh("git -C %s apply --check %s/patch.diff" % (wt, d)).returncode:
+                    with lock:
+                        results[name] = {"caught": None, "note": "patch does not apply to current HEAD"}
+                    print(name, "DOES-NOT-APPLY", flush=True); continue
+                sh("git -C %s apply %s/patch.diff" % (wt, d))
+                entry = {"caught_by": []}
+                for chk in [pid] + EXTRA.get(name, []):
+                    try:
+                        p = sh("./check %s --tier quick" % chk, env=env, timeout=3000)
+                        out, rc = p.stdout.decode("utf-8", "replace"), p.returncode
+                    except subprocess.TimeoutExpired:
+                        out, rc = "TIMEOUT", -1
+                    v = [l for l in out.splitlines() if l.startswith("VIOLATION")]
+                    if rc == 1 and v:
+                        entry["caught_by"].append(chk)
+                        entry.setdefault("first", v[0][:300])
+                    else:
+                        entry.setdefault("missed_by", []).append({"check": chk, "rc": rc, "last": (out.strip().splitlines() or [""])[-1][:200]})
+                entry["caught"] = bool(entry["caught_by"])
+                sh("git -C %s checkout -- ." % wt)
+                sh("find %s -name __pycache__ -prune -exec rm -rf {} +" % wt)
+                with lock:
+                    results[name] = entry
+                    json.dump(results, open(resf, "w"), indent=1, sort_keys=True)
+                print(name, "CAUGHT by %s" % entry["caught_by"] if entry["caught"] else "MISSED", "|", entry.get("first", "")[:150], flush=True)
     finally:
-        subprocess.run("git -C /repo checkout -- .", shell=True)
-    v = [l for l in out.splitlines() if l.startswith("VIOLATION")]
-    results[name] = {"caught": rc == 1 and bool(v), "rc": rc, "first": (v[0][:300] if v else out.strip().splitlines()[-1][:300] if out.strip() else "")}
-    print(name, "CAUGHT" if results[name]["caught"] else "MISSED rc=%s" % rc, "|", results[name]["first"][:160])
-    json.dump(results, open(resf, "w"), indent=1, sort_keys=True)
+        sh("git -C /repo worktree remove --force %s" % wt)
+ts = [threading.Thread(target=lane, args=(k,)) for k in range(lanes)]
+[t.start() for t in ts]
+[t.join() for t in ts]
+missed = sorted(n for n, r in results.items() if r.get("caught") is False)
+print("total %d, missed %s" % (len(results), missed))
